@@ -703,3 +703,48 @@ class World:
 
 
 _CB = CBackend()
+
+
+class CurvedWorld(World):
+    """One cell of a NON-AFFINE coordinate map  x(X) = x0 + A X + 1/2 Q X X  (a P2 coordinate element), a point in it, and
+    fields that are polynomials in the REFERENCE coordinates (so they are not polynomials in x).
+
+    Cell integrals with tdim == gdim only.  Geometry known to the interpreter: SpatialCoordinate, CellCoordinate, Jacobian,
+    JacobianInverse, JacobianDeterminant (all depend on the point); everything else is Unsupported here.
+    """
+
+    curved = True
+
+    def __init__(self, rng, cellname, gdim, complex_mode=False, seed_note=None):
+        super().__init__(rng, cellname, gdim, "cell", complex_mode, seed_note=seed_note)
+        t = self.tdim
+        if t != gdim or t == 0:
+            raise Unsupported("curved world needs tdim == gdim >= 1")
+        s = self.sides["+"]
+        self.x0 = s.verts[0].copy()
+        self.A = (s.verts[1:] - s.verts[0]).T.copy()  # (g, t)
+        RV = np.array(REF_VERTS[cellname], dtype=float).reshape(t + 1, t)
+        probes = [RV[k] for k in range(t + 1)] + [(RV[a] + RV[b]) / 2 for a, b in itertools.combinations(range(t + 1), 2)] + [s.X]
+        detA = float(np.linalg.det(self.A))
+        amp = float(np.max(np.abs(self.A)))
+        for attempt in range(200):
+            Q = np.zeros((gdim, t, t))
+            for g_ in range(gdim):
+                for a in range(t):
+                    for b in range(a, t):
+                        v = rng.randint(-4, 4) / 8 * min(1.0, amp) * (0.5 if attempt > 50 else 1.0)
+                        Q[g_, a, b] = Q[g_, b, a] = v
+            if not np.any(Q):
+                continue
+            ok = True
+            for X in probes:
+                dj = float(np.linalg.det(self.A + Q @ X))
+                if dj * detA <= 0 or abs(dj) < 0.3 * abs(detA):
+                    ok = False
+                    break
+            if ok and np.linalg.cond(self.A + Q @ s.X) < 40:
+                break
+        else:
+            raise Unsupported("could not generate a curved cell")
+        self.Q = Q
+        self.x = self.x0 + self.A @ s.X + 0.5 * np.einsum("gtu,t,u->g", Q, s.X, s.X)
